@@ -10,9 +10,11 @@ def fnv64' (b : Bytes) : UInt64 :=
 def digest' (b : Bytes) : String := s!"{b.length}/{(fnv64' b).toNat}"
 
 /-- Update specs: `T:<tmp>:<p>:<data>` write-temp-then-rename, `C:<tmp>:<final>:<data>` create by link,
-    `R:<tmp>:<old>:<new>:<data>` rename + update, `D:<p>` delete, `W:<p>:<data>` direct write (negative witness). -/
-def parseSpec (s : String) : Option (List Sys) :=
+    `R:<tmp>:<old>:<new>:<data>` rename + update, `D:<p>` delete, `W:<p>:<data>` direct write (negative witness),
+    `U:<tmp>:<old>:<new>:<data>` account update as the code decides it from the directory `fs`. -/
+def parseSpec (fs : FS) (s : String) : Option (List Sys) :=
   match s.splitOn ":" with
+  | ["U", t, o, n, d] => some (updateProg t.toList fs o.toList n.toList (hexb d))
   | ["T", t, p, d] => some (tempRename t.toList p.toList (hexb d))
   | ["C", t, f, d] => some (createLink t.toList f.toList (hexb d))
   | ["R", t, o, n, d] => some (renameUpdate t.toList o.toList n.toList (hexb d))
@@ -44,17 +46,23 @@ def observe (vis : String) (fs : FS) : List (Option Bytes) :=
   | _ => (contents isYaml fs).map some
 
 def c20Handlers : List (String × Handler) := [
-  -- c20prog <spec> → the system-call program
+  -- c20prog <spec> [<name:hex>…] → the system-call program (in directory state fs, default empty)
   ("c20prog", fun (a : List String) => match a with
-    | [s] => match parseSpec s with
-      | some prog => " ".intercalate (prog.map showSys)
+    | s :: ents => match ents.mapM parseEntry with
+      | some fs => match parseSpec fs s with
+        | some prog => " ".intercalate (prog.map showSys)
+        | none => "bad-op"
       | none => "bad-op"
     | _ => "bad-op"),
   -- c20sim <spec> <k> <yaml | file=<p>> <name:hex>…  → listing of the crash state | old/new/both/torn
   ("c20sim", fun (a : List String) => match a with
     | s :: k :: vis :: ents =>
-      match parseSpec s, ents.mapM parseEntry with
-      | some prog, some fs =>
+      match ents.mapM parseEntry with
+      | none => "bad-op"
+      | some fs =>
+      match parseSpec fs s with
+      | none => "bad-op"
+      | some prog =>
         let st := crash prog (num k) fs
         let fin := crash prog prog.length fs
         let o := observe vis st
@@ -62,7 +70,6 @@ def c20Handlers : List (String × Handler) := [
         let isNew := o == observe vis fin
         let verdict := if isOld && isNew then "both" else if isOld then "old" else if isNew then "new" else "torn"
         listing st ++ " | " ++ verdict ++ s!" {prog.length}"
-      | _, _ => "bad-op"
     | _ => "bad-op"),
   -- c20glob <name>… → which names the account loader's glob matches
   ("c20glob", fun (a : List String) => " ".intercalate (a.map fun n => if isYaml n.toList then "1" else "0"))
